@@ -31,7 +31,7 @@ CASE_TIMEOUT = {'quick': 200, 'thorough': 400}
 
 
 def plan(tier, seed):
-    n = 96 if tier == 'quick' else 10000
+    n = 900 if tier == 'quick' else 10000
     return [{'idx': i} for i in range(n)]
 
 
